@@ -33,7 +33,7 @@ func c07World(tp *Tape, env *Env) (*Plan, *Violation) {
 		MaxNodes: 4, MaxStmts: 4, MaxDepth: 2, MaxTotal: 22,
 		WLine: 8, WOptions: 4, WIf: 3, WSet: 5, WDeclare: 1, WJump: 5, WJumpE: 2, WStop: 0, WCall: 1, WCommand: 3,
 		NVars: [3]int{2, 1, 1}, NJVars: 1, Probes: true, Visited: true, ExprDepth: 1,
-		InlinePct: 25, CondPct: 25, TrackingPct: 15, VarLines: true, Builtins: true, CountLines: tp.Bool("countlines"),
+		InlinePct: 25, CondPct: 25, TrackingPct: 15, VarLines: true, Builtins: true, CountLines: tp.Bool("countlines"), NoStringSelfGrowth: true,
 	}
 	if tp.Chance(50, "nocmd") {
 		cfg.WCommand = 0
